@@ -85,7 +85,7 @@ def readerSession (f : List String) : IO String := do
     let mut r : FrameR.R := { FrameR.new (mkSrc data) with num := conc.toNat! }
     let mut res : Array String := #[]
     for op in ops do
-      if op.startsWith "E:" || op.startsWith "P:" || op.startsWith "X:" then continue   -- expectations for the harness only
+      if op.startsWith "E:" || op.startsWith "P:" || op.startsWith "X:" || op.startsWith "z:" then continue   -- expectations for the harness only
       match op.splitOn ":" with
       | ["r", n] =>
         let (r', out, e) := FrameR.read r n.toNat!
